@@ -103,7 +103,8 @@ def gen_dump(rng):
     all_tids = tids + [undeclared]
     events = H.materialize([(all_tids[t], programs[t][i]) for t, i in order], t0=0x100000001)
     entries = [(tid, map_pids[i],
-                rng.choice((b'launchd', b'Safari', b'caf\xc3\xa9', b'p', b'a-name-of-19-bytes!', b'\xe6\x97\xa5' * 6)), b'')
+                rng.choice((b'launchd', b'Safari', b'caf\xc3\xa9', b'p', b'a-name-of-19-bytes!', b'\xe6\x97\xa5' * 6)),
+                rng.choice((b'', b'', b'oxy', b' Helper', b'\xff\xfe\x01', rng.randbytes(12))))      # bytes after the NUL
                for i, tid in enumerate(tids)]
     if rng.random() < 0.3:
         entries.append((tids[0], 300, b'later-entry', b''))      # duplicate tid: the later entry wins
@@ -422,6 +423,36 @@ def long_dump(res, ctx, rng, n_workers):
     res.count('long_dumps')
 
 
+def concurrent_objects(res, rng, dumps):
+    """Two front-end objects, each listing its own dump, their lazy listings advanced alternately: every line is what
+    the object prints when it is the only one in the process (the tables a line is rendered from are the object's own)."""
+    import itertools
+    cfg = {'show_timestamp': True, 'show_tid': True, 'show_process': True}
+    for method in ('formatted_traces', 'formatted_kevents', 'formatted_callstacks'):
+        try:
+            alone = [list(getattr(front(cfg), method)(io.BytesIO(d['data']))) for d in dumps]
+            objs = [front(cfg) for _ in dumps]
+            gens = [getattr(o, method)(io.BytesIO(d['data'])) for o, d in zip(objs, dumps)]
+            got = [[] for _ in dumps]
+            for row in itertools.zip_longest(*gens):
+                for i, l in enumerate(row):
+                    if l is not None:
+                        got[i].append(l)
+        except Exception as x:
+            res.violation(f'c14-raises-{core.exc_name(x)}', f'{method} on two objects at the same time: {x!r}',
+                          {'files': [d['data'] for d in dumps]})
+            return
+        res.count('concurrent_object_listings')
+        for i, d in enumerate(dumps):
+            if got[i] != alone[i]:
+                k = next((j for j, (a, b) in enumerate(zip(got[i], alone[i])) if a != b), min(len(got[i]), len(alone[i])))
+                res.violation('c14-line-depends-on-another-object', f'{method}: two front-end objects list two dumps, their '
+                              f'listings advanced alternately: line {k} of dump {i} reads '
+                              f'{got[i][k] if k < len(got[i]) else None!r}, alone it reads '
+                              f'{alone[i][k] if k < len(alone[i]) else None!r}', {'files': [x['data'] for x in dumps]})
+                return
+
+
 def check_logs(res, rng):
     """Log lines: colour never changes the text; a record that names its process and thread is shown under the
     process the dump declares for that thread (the record itself declares it)."""
@@ -465,6 +496,7 @@ def check_logs(res, rng):
 def run(ctx):
     res = core.Result()
     rng = ctx.rng
+    prev_dump = None
     for i in range(ctx.pick(16, 600)):
         check_logs(res, rng)
         dump = gen_dump(rng)
@@ -479,6 +511,9 @@ def run(ctx):
         if r is not None and not wall:
             check_process_column(res, dump, r[0])
         check_colour(res, dump)
+        if prev_dump is not None and i % 2:
+            concurrent_objects(res, rng, [prev_dump, dump])
+        prev_dump = dump
         res.count('dumps')
     if ctx.shard == 0:
         for n in ctx.pick((2600,), (2600, 9000, 40000)):
@@ -499,6 +534,7 @@ def run(ctx):
     res.require('reused_object_requests', 20)
     res.require('callstack_headers_checked', 10)
     res.require('long_dumps', 1)
+    res.require('concurrent_object_listings', 6)
     res.require('callstacks_of_threads_remapped_or_renamed_earlier', 1)
     res.require('callstacks_of_threads_renamed_under_the_same_pid', 1)
     return res
